@@ -397,12 +397,11 @@ func caches() (ea, er, ee, da, dr, de *sync.Map) {
 	return
 }
 
-// NewPair builds the pair and joins o.Pool links.
-func NewPair(o PairOptions) (*Pair, error) {
+// Results builds the two handshake results NewPair feeds to the connections.
+func Results(o PairOptions) (ra, rb gen.HandshakeResult) {
 	if o.Pool < 1 {
 		o.Pool = 1
 	}
-	p := &Pair{CoreA: NewMockCore("a@localhost", 1001), CoreB: NewMockCore("b@localhost", 2002), LogA: &NopLog{}, LogB: &NopLog{}}
 	flags := gen.NetworkFlags{Enable: true, EnableImportantDelivery: true, EnableRemoteSpawn: true, EnableRemoteApplicationStart: true}
 	co := handshake.ConnectionOptions{PoolSize: o.Pool}
 	if o.Caches {
@@ -411,10 +410,24 @@ func NewPair(o PairOptions) (*Pair, error) {
 		co.DecodeAtomCache, co.DecodeRegCache, co.DecodeErrCache = da, dr, de
 	}
 	id := fmt.Sprintf("pair-%d", pipeSeq.Add(1))
-	ra := gen.HandshakeResult{ConnectionID: id, Peer: "b@localhost", PeerCreation: 2002, PeerFlags: flags, NodeFlags: flags,
+	ra = gen.HandshakeResult{ConnectionID: id, Peer: "b@localhost", PeerCreation: 2002, PeerFlags: flags, NodeFlags: flags,
 		PeerMaxMessageSize: o.MaxMessageSizeB, NodeMaxMessageSize: o.MaxMessageSizeA, Custom: co}
-	rb := gen.HandshakeResult{ConnectionID: id, Peer: "a@localhost", PeerCreation: 1001, PeerFlags: flags, NodeFlags: flags,
+	rb = gen.HandshakeResult{ConnectionID: id, Peer: "a@localhost", PeerCreation: 1001, PeerFlags: flags, NodeFlags: flags,
 		PeerMaxMessageSize: o.MaxMessageSizeA, NodeMaxMessageSize: o.MaxMessageSizeB, Custom: co}
+	return
+}
+
+// Conn is one end of an in-memory link.
+type Conn = shapedConn
+
+// NewPair builds the pair and joins o.Pool links.
+func NewPair(o PairOptions) (*Pair, error) {
+	if o.Pool < 1 {
+		o.Pool = 1
+	}
+	p := &Pair{CoreA: NewMockCore("a@localhost", 1001), CoreB: NewMockCore("b@localhost", 2002), LogA: &NopLog{}, LogB: &NopLog{}}
+	ra, rb := Results(o)
+	id := ra.ConnectionID
 	p.ID = id
 	var err error
 	if p.ConnA, err = proto.Create().NewConnection(p.CoreA, ra, p.LogA); err != nil {
